@@ -34,7 +34,7 @@ def run_case(desc):
     cl = classes_of(dict(cfg, cls=direction)) + [f"direction:{direction}"]
 
     def tol_for(scale):
-        return (64 * eps * cond + 1e-11) * scale
+        return (64 * eps * cond + 1e-11) * scale + 1e-290
 
     if direction == "forward":
         drv = np.abs(sg.driver_values(cfg))  # non-negative inflow
